@@ -8,7 +8,7 @@ META = {
         "left early, an entry is visited iff its key carries the local id and then every future in it is cancelled exactly once "
         "(found the 'break' defect, fixed); RegionObjectsState.resolve_futures - a future of the snapshot is resolved iff it is still "
         "pending, given that set_result raises exactly on a done future, so no InvalidStateError escapes (the fixed defect fails this). "
-        "B (bounded, NOT proved): an independent reference model of the scene graph compared after every message with the real "
+        "RegionObjectsState.register_future files the new future under (local id, update type) - the key the other two look under - and returns it. B (bounded, NOT proved): an independent reference model of the scene graph compared after every message with the real "
         "ProxyWorldObjectManager / region managers driven through a real Session: every (scene graph, enabled message) pair over a universe "
         "of 3 local ids x 3 full ids x 2 regions + unknown handle (91-message alphabet; quick: ~7.7k of ~16k pairs under full renaming "
         "symmetry, thorough: all ~94.7k pairs), plus seeded random walks of 20-69 steps with terse / cached / property / request steps. "
